@@ -173,6 +173,7 @@ class AbsInt:
         self.global_overrides = {}      # (module name, global name) -> abstract value
         self._yields = []               # collectors of the generators being (eagerly) evaluated
         self.module_globals = {}        # module name -> ADict written through globals()
+        self.builtin_summaries = {}     # builtin name (open, print...) -> callable(interp, args, kwargs, node)
         self.method_hooks = []          # callables (interp, base, name, args, kwargs, node) -> value | _NO
 
     # --------------------------------------------------------------- explore
@@ -396,6 +397,10 @@ class AbsInt:
         elif isinstance(st, ast.Assert):
             pass
         elif isinstance(st, ast.With):
+            for item in st.items:
+                if item.optional_vars is not None:
+                    v = self.ev(item.context_expr, env, m)
+                    self.assign(item.optional_vars, v, env, m)
             self.ex_block(st.body, env, m)
         else:
             raise Unsupported(f'abstract interpreter: unsupported statement {type(st).__name__} at line {st.lineno}')
@@ -621,6 +626,25 @@ class AbsInt:
         return ADict(d)
 
     def _v_JoinedStr(self, e, env, m):
+        if getattr(self, 'str_domain', False):
+            from . import strdom
+            segs = []
+            for v in e.values:
+                if isinstance(v, ast.Constant):
+                    segs.append(str(v.value))
+                else:
+                    val = self.ev(v.value, env, m)
+                    spec = ''
+                    if v.format_spec is not None:
+                        spec = self.ev(v.format_spec, env, m)
+                        if not isinstance(spec, str):
+                            return Opaque('format spec')
+                    conv = {114: 'r', 115: 's', 97: 'a'}.get(v.conversion)
+                    r = strdom.render(val, spec, conv)
+                    if r is None:
+                        return Opaque(f'f-string of {val!r}')
+                    segs.append(r)
+            return strdom.norm(strdom.SStr(segs))
         try:
             return self.f.eval(e, {k: v for k, v in env.items() if _is_concrete(v)}, m)
         except Unfoldable:
@@ -787,6 +811,20 @@ class AbsInt:
         return True
 
     def compare(self, op, a, b, node):
+        if type(a).__name__ == 'SStr' or type(b).__name__ == 'SStr':
+            if isinstance(op, (ast.Eq, ast.NotEq)):
+                other = b if type(a).__name__ == 'SStr' else a
+                if isinstance(other, str):
+                    # a string with a symbolic segment is never equal to a literal without digits etc.: decide by shape
+                    me = a if type(a).__name__ == 'SStr' else b
+                    if me.is_literal():
+                        eq = me.literal() == other
+                    else:
+                        eq = False if not any(ch.isdigit() or ch in '-.' for ch in other) else None
+                    if eq is None:
+                        return None
+                    return eq if isinstance(op, ast.Eq) else not eq
+            return None
         if isinstance(a, Poly) or isinstance(b, Poly):
             pa, pb = to_poly(a), to_poly(b)
             if pa is None or pb is None:
@@ -925,6 +963,8 @@ class AbsInt:
             sg = v.sign()
             if sg is not None:
                 return sg != 0
+        if type(v).__name__ == 'SStr':
+            return bool(v.segs)
         return self.decide(node, f'truth of {v!r}')
 
     def _v_Subscript(self, e, env, m):
@@ -939,6 +979,8 @@ class AbsInt:
         return self.index(base, idx, e)
 
     def index(self, base, idx, node):
+        if hasattr(base, 'absint_index'):
+            return base.absint_index(self, idx, node)
         if isinstance(base, ADict):
             if _hashable_const(idx):
                 if idx in base.d:
@@ -1005,6 +1047,22 @@ class AbsInt:
         return Opaque(f'index {base!r}')
 
     def slice(self, base, lo, hi, node):
+        if type(base).__name__ == 'SStr':
+            from . import strdom
+            segs = list(base.segs)
+            lo_ = lo or 0
+            hi_ = hi if hi is not None else 0
+            if lo_ < 0 or hi_ > 0:
+                return Opaque('slice of symbolic text')
+            if lo_:
+                if not segs or not isinstance(segs[0], str) or len(segs[0]) < lo_:
+                    return Opaque('slice into a symbolic segment')
+                segs[0] = segs[0][lo_:]
+            if hi_:
+                if not segs or not isinstance(segs[-1], str) or len(segs[-1]) < -hi_:
+                    return Opaque('slice into a symbolic segment')
+                segs[-1] = segs[-1][:hi_]
+            return strdom.norm(strdom.SStr(segs))
         if _is_concrete(base) and not isinstance(base, (AList,)):
             try:
                 return base[lo:hi]
@@ -1157,6 +1215,8 @@ class AbsInt:
                     return Opaque('**kwargs')
             else:
                 kwargs[kw.arg] = v
+        if isinstance(e.func, ast.Name) and e.func.id in self.builtin_summaries and e.func.id not in env:
+            return self.builtin_summaries[e.func.id](self, args, kwargs, e)
         if isinstance(e.func, ast.Name) and e.func.id == 'isinstance' and 'isinstance' not in env and len(args) == 2:
             return self.isinstance_(args, e)
         if isinstance(e.func, ast.Name) and e.func.id == 'hasattr' and 'hasattr' not in env and len(args) == 2 \
@@ -1269,6 +1329,27 @@ class AbsInt:
             return Opaque('set of symbolic')
         if f in (int,) and args and isinstance(args[0], AV):
             return args[0]
+        if getattr(self, 'str_domain', False) and f in (str, int, float) and len(args) == 1:
+            from . import strdom
+            a0 = args[0]
+            if f is str and isinstance(a0, (AV, strdom.FloatSym)):
+                r = strdom.render(a0)
+                if r is not None:
+                    return strdom.norm(r)
+            if f is str and isinstance(a0, strdom.SStr):
+                return a0
+            if f is int and isinstance(a0, strdom.SStr):
+                try:
+                    return strdom.parse_int(a0)
+                except AbsRaise:
+                    raise AbsRaise('ValueError', node)
+            if f is float and isinstance(a0, strdom.SStr):
+                try:
+                    return strdom.parse_float(a0)
+                except AbsRaise:
+                    raise AbsRaise('ValueError', node)
+            if f is float and isinstance(a0, strdom.FloatSym):
+                return a0
         if isinstance(f, tuple) and f and f[0] == 'lambda':
             return self.call_lambda(f, list(args))
         if f in (round, int, float, abs) and len(args) == 1 and isinstance(args[0], (Poly, Wrapped)):
@@ -1283,6 +1364,18 @@ class AbsInt:
         if f is sorted and args and isinstance(args[0], (AList, list, tuple)) and not _is_concrete(args[0]):
             src = args[0].items if isinstance(args[0], AList) else list(args[0])
             return AList(self.sort_items(list(src), kwargs, node), 'list')
+        if isinstance(f, tuple) and len(f) == 3 and f[0] == 'attr' and f[1] in (bytearray, bytes) and f[2] == 'fromhex' and len(args) == 1 \
+                and getattr(self, 'str_domain', False):
+            from . import strdom
+            try:
+                r = strdom.fromhex(args[0])
+            except AbsRaise:
+                raise AbsRaise('ValueError', node)
+            if r is None:
+                return Opaque('fromhex of non-text')
+            return AList(r, 'bytearray')
+        if isinstance(f, tuple) and len(f) == 3 and f[0] == 'attr' and f[1] is str and f[2] == 'join' and len(args) == 2:
+            return self.method(args[0], 'join', [args[1]], {}, node)
         if f is bool and len(args) == 1 and not _is_concrete(args[0]):
             return self.truth(args[0], node)
         if f is ord and len(args) == 1 and isinstance(args[0], AList):
@@ -1331,7 +1424,7 @@ class AbsInt:
             return 'Real' in names or 'float' in names or 'Number' in names
         if hasattr(v, 'py_type'):
             names = unparse(node.args[1])
-            return v.py_type in names
+            return any(tok in names for tok in v.py_type.split())
         if isinstance(v, AV):
             names = unparse(node.args[1])
             if 'Integral' in names or 'int' in names or 'Real' in names or 'Number' in names:
@@ -1359,6 +1452,8 @@ class AbsInt:
         return self.decide(node, 'isinstance')
 
     def length_of(self, v, node=None):
+        if hasattr(v, 'absint_len'):
+            return v.absint_len()
         if isinstance(v, AList):
             c = sum(1 for x in v.items if not isinstance(x, SeqVar))
             c = 0
